@@ -11,12 +11,12 @@ import (
 	"encoding/json"
 	"errors"
 	"fmt"
-	"sync"
 	"os"
 	"path/filepath"
 	"sort"
 	"strconv"
 	"strings"
+	"sync"
 
 	"github.com/bitcoin-sv/block-headers-service/internal/zzverif/vh"
 	"github.com/bitcoin-sv/block-headers-service/repository/dto"
@@ -55,9 +55,11 @@ func NewDB() *sqlx.DB {
 		if err != nil {
 			panic(vh.Diverged{Why: err.Error()})
 		}
-		if _, err := db.Exec(string(b)); err != nil {
-			panic(vh.Diverged{Why: fmt.Sprintf("migration %s: %v", mf, err)})
-		}
+		setup(func() {
+			if _, err := db.Exec(string(b)); err != nil {
+				panic(vh.Diverged{Why: fmt.Sprintf("migration %s: %v", mf, err)})
+			}
+		})
 	}
 	return db
 }
@@ -67,9 +69,11 @@ VALUES(:hash, :height, :version, :merkleroot, :nonce, :bits, :header_state, :cha
 
 // InsertHeaderRow stores r as the next row (rowid order = call order). The primary key must be fresh.
 func InsertHeaderRow(db *sqlx.DB, r dto.DbBlockHeader) {
-	if _, err := db.NamedExec(insHeader, r); err != nil {
-		panic(vh.Diverged{Why: "pre-state row rejected by SQLite: " + err.Error()})
-	}
+	setup(func() {
+		if _, err := db.NamedExec(insHeader, r); err != nil {
+			panic(vh.Diverged{Why: "pre-state row rejected by SQLite: " + err.Error()})
+		}
+	})
 }
 
 // HeaderRows returns all stored headers in rowid order.
@@ -83,9 +87,11 @@ func HeaderRows(db *sqlx.DB) []dto.DbBlockHeader {
 }
 
 func InsertTokenRow(db *sqlx.DB, r dto.DbToken) {
-	if _, err := db.NamedExec(`INSERT INTO tokens(token, created_at) VALUES(:token, :created_at)`, r); err != nil {
-		panic(vh.Diverged{Why: "pre-state row rejected by SQLite: " + err.Error()})
-	}
+	setup(func() {
+		if _, err := db.NamedExec(`INSERT INTO tokens(token, created_at) VALUES(:token, :created_at)`, r); err != nil {
+			panic(vh.Diverged{Why: "pre-state row rejected by SQLite: " + err.Error()})
+		}
+	})
 }
 
 func TokenRows(db *sqlx.DB) []dto.DbToken {
@@ -97,8 +103,11 @@ func TokenRows(db *sqlx.DB) []dto.DbToken {
 }
 
 func InsertWebhookRow(db *sqlx.DB, r dto.DbWebhook) {
-	_, err := db.NamedExec(`INSERT INTO webhooks(url, token_header, token, created_at, last_emit_status, last_emit_timestamp, errors_count, is_active)
+	var err error
+	setup(func() {
+		_, err = db.NamedExec(`INSERT INTO webhooks(url, token_header, token, created_at, last_emit_status, last_emit_timestamp, errors_count, is_active)
 VALUES(:url, :token_header, :token, :created_at, :last_emit_status, :last_emit_timestamp, :errors_count, :is_active)`, r)
+	})
 	if err != nil {
 		panic(vh.Diverged{Why: "pre-state row rejected by SQLite: " + err.Error()})
 	}
@@ -159,12 +168,44 @@ func (d *wdriver) Open(dsn string) (driver.Conn, error) {
 
 type wconn struct {
 	*sqlite3.SQLiteConn
-	fs *faultState
+	fs   *faultState
+	inTx bool
+}
+
+// quiet: the harness's own set-up writes (schema, pre-state rows) are not counted as writes of the code under test
+var quiet bool
+
+func setup(f func()) {
+	old := quiet
+	quiet = true
+	defer func() { quiet = old }()
+	f()
+}
+
+func isWrite(q string) bool {
+	t := strings.ToLower(strings.TrimSpace(q))
+	return strings.HasPrefix(t, "insert") || strings.HasPrefix(t, "update") || strings.HasPrefix(t, "delete")
+}
+
+// autocommit: a write statement executed outside a transaction is its own committed write
+func (c *wconn) autocommit(query string, run func() (driver.Result, error)) (driver.Result, error) {
+	c.fs.op()
+	w := c.fs != nil && !c.inTx && !quiet && isWrite(query)
+	if w {
+		c.fs.commits++
+		if c.fs.failAt > 0 && c.fs.commits == c.fs.failAt {
+			return nil, errFault
+		}
+	}
+	res, err := run()
+	if w && c.fs.killAt > 0 && c.fs.commits == c.fs.killAt {
+		panic(Killed{})
+	}
+	return res, err
 }
 
 func (c *wconn) ExecContext(ctx context.Context, query string, args []driver.NamedValue) (driver.Result, error) {
-	c.fs.op()
-	return c.SQLiteConn.ExecContext(ctx, query, args)
+	return c.autocommit(query, func() (driver.Result, error) { return c.SQLiteConn.ExecContext(ctx, query, args) })
 }
 
 func (c *wconn) QueryContext(ctx context.Context, query string, args []driver.NamedValue) (driver.Rows, error) {
@@ -172,12 +213,40 @@ func (c *wconn) QueryContext(ctx context.Context, query string, args []driver.Na
 	return c.SQLiteConn.QueryContext(ctx, query, args)
 }
 
+func (c *wconn) Prepare(query string) (driver.Stmt, error) {
+	return c.PrepareContext(context.Background(), query)
+}
+
+func (c *wconn) PrepareContext(ctx context.Context, query string) (driver.Stmt, error) {
+	st, err := c.SQLiteConn.PrepareContext(ctx, query)
+	if err != nil {
+		return nil, err
+	}
+	return &wstmt{SQLiteStmt: st.(*sqlite3.SQLiteStmt), c: c, query: query}, nil
+}
+
+type wstmt struct {
+	*sqlite3.SQLiteStmt
+	c     *wconn
+	query string
+}
+
+func (s *wstmt) ExecContext(ctx context.Context, args []driver.NamedValue) (driver.Result, error) {
+	return s.c.autocommit(s.query, func() (driver.Result, error) { return s.SQLiteStmt.ExecContext(ctx, args) })
+}
+
+func (s *wstmt) QueryContext(ctx context.Context, args []driver.NamedValue) (driver.Rows, error) {
+	s.c.fs.op()
+	return s.SQLiteStmt.QueryContext(ctx, args)
+}
+
 func (c *wconn) Begin() (driver.Tx, error) {
 	tx, err := c.SQLiteConn.Begin()
 	if err != nil {
 		return nil, err
 	}
-	return &wtx{Tx: tx, fs: c.fs}, nil
+	c.inTx = true
+	return &wtx{Tx: tx, fs: c.fs, c: c}, nil
 }
 
 func (c *wconn) BeginTx(ctx context.Context, opts driver.TxOptions) (driver.Tx, error) {
@@ -185,15 +254,23 @@ func (c *wconn) BeginTx(ctx context.Context, opts driver.TxOptions) (driver.Tx, 
 	if err != nil {
 		return nil, err
 	}
-	return &wtx{Tx: tx, fs: c.fs}, nil
+	c.inTx = true
+	return &wtx{Tx: tx, fs: c.fs, c: c}, nil
 }
 
 type wtx struct {
 	driver.Tx
 	fs *faultState
+	c  *wconn
+}
+
+func (t *wtx) Rollback() error {
+	t.c.inTx = false
+	return t.Tx.Rollback()
 }
 
 func (t *wtx) Commit() error {
+	t.c.inTx = false
 	if t.fs == nil {
 		return t.Tx.Commit()
 	}
